@@ -150,6 +150,16 @@ def gen_case(rng, idx: int, base: str = ""):
 
     spec = {"files": {}, "dirs": {}, "links": {}, "caps": {}, "dirabstract": None}
     t = Tree()
+    # every tenth directory has no link file and no .cap file at all: nothing but names and extension stripping
+    bare = idx % 10 == 0
+    if bare or rng.random() < 0.3:
+        # names whose order changes when the extension is stripped ('-' and '+' sort before '.', 'a' after)
+        for stem, other in rng.sample([("a", "a-b"), ("notes", "notes-old"), ("x", "x+y"), ("Report", "Report 2"), ("k", "k,1")], 2):
+            ext = rng.choice([".txt", ".gif", ".pdf"])
+            for n in (stem + ext, other + ext):
+                t.file(n, b"data of " + n.encode() + b"\n")
+                spec["files"][n] = {"ext": ext}
+                used.add(n)
     for _ in range(rng.randrange(0, 8)):
         ext = rng.choice(list(EXT))
         n = word() + ext
@@ -186,7 +196,7 @@ def gen_case(rng, idx: int, base: str = ""):
         rng.shuffle(numbers)
     existing = list(spec["files"]) + list(spec["dirs"])
     overridden = set()
-    for fname in rng.sample([".Links", ".names", ".zlinks", ".alinks"], rng.randrange(0, 4)):
+    for fname in rng.sample([".Links", ".names", ".zlinks", ".alinks"], 0 if bare else rng.randrange(0, 4)):
         blocks = []
         for _ in range(rng.randrange(1, 5)):
             lines = []
@@ -243,6 +253,11 @@ def gen_case(rng, idx: int, base: str = ""):
                 lines[0], lines[-1] = lines[-1], lines[0]
             if lines and lines[-1].startswith("Numb="):
                 lines.append("Name=" + word())
+            # a comment inside the block, somewhere before its Path line (comments are skipped; one after the Path
+            # would end the block)
+            pidx = next((k for k, ln in enumerate(lines) if ln.startswith("Path=")), None)
+            if pidx is not None and rng.random() < 0.3 and not any("\\\n" in ln for ln in lines[:pidx]):
+                lines.insert(rng.randrange(0, pidx + 1), rng.choice(["# a note about this link", "#", "#Path=/not/this/one"]))
             # a continued Abstract must not be followed by nothing
             blocks.append("\n".join(lines))
         if not blocks:
@@ -252,7 +267,7 @@ def gen_case(rng, idx: int, base: str = ""):
         spec["links"][fname] = text
         t.file(fname, text)
     for n in existing:
-        if n in overridden or rng.random() > 0.25:
+        if bare or n in overridden or rng.random() > 0.25:
             continue
         opts = []
         if rng.random() < 0.7:
